@@ -29,8 +29,7 @@ def run(ctx):
     sf, sc_, sl = charfam.run_sequences(ctx, charfam.collision_sequences(), "c02")
     files, cells, leaves = files + sf, cells + sc_, leaves + sl
     verdicts, decided = charfam.validate(ctx, files)
-    if decided < max(5, cells // 4) and not ctx.violations:
-        raise vlib.Undecided("only %d of %d cells gave an exact distribution (the scripted source no longer drives the generator?)" % (decided, cells))
+    too_few = decided < max(5, cells // 4)
     ctx.evaluations = leaves
     ctx.nontrivial = decided
     ctx.cover.update(cells=cells, leaves=leaves, cells_with_exact_distribution=decided, universe_size=len(uni))
@@ -39,6 +38,8 @@ def run(ctx):
     ctx.absorb(verdicts, files, charfam.describe_char)
     # the index -> character step is only uniform if the draw itself is, for the bounds these recipes use
     drawfam.draw_conformance(ctx, charfam.bounds_seen(files), "character recipes")
+    if too_few and not ctx.violations:    # (decided only now: a sampler that no longer reads whole words is the draw conformance's business)
+        raise vlib.Undecided("only %d of %d cells gave an exact distribution (the scripted source no longer drives the generator?)" % (decided, cells))
     ctx.assumptions += ["C01 for the step index -> probability 1/n", "the verif hook pins the alphabet order (production order is a per-call "
                         "permutation of the same duplicate-free set; Alphabet() is compared with the specification's set)"]
     return ("TLC sums exact leaf masses of %d complete choice trees of the real Generate (%d leaves): support = the specification's valid set, "
